@@ -378,6 +378,7 @@ inductive Op where
   | reextentFill (i : Nat) (es : List Ext)
   | reextentRv (i : Nat) (es : List Ext)
   | reshape (i : Nat) (es : List Ext)
+  | assignFill (i : Nat) (es : List Ext)
   | assignView (i j : Nat) (sl : Option (Int × Int)) (lvalue : Bool)
   | assignRange (i j : Nat)
   | viewAssign (i j : Nat)
@@ -390,13 +391,18 @@ def viewExts (x : Arr) (sl : Option (Int × Int)) : List Ext :=
   | some (lo, hi), _ :: rest => (if lo = hi then ⟨0, 0⟩ else ⟨lo, hi⟩) :: rest
   | _, e => e
 
-/-- `index_extension(distance(first, last)) * extensions(*first)` for `first, last = x.begin(), x.end()` array.hpp:255-256 -/
-def rangeExts (x : Arr) : List Ext :=
+/-- `range_extensions_(first, last)` for `first, last = x.begin(), x.end()` array.hpp:250-255: an empty range gives
+    `extensions_type{}`, otherwise `index_extension(distance(first, last)) * extensions(*first)` -/
+def rangeExts (c : Cfg) (x : Arr) : List Ext :=
   match x.ext with
-  | e :: rest => ⟨0, Int.ofNat (extSize e)⟩ :: rest
+  | e :: rest => if extSize e = 0 then emptyExts c.dim else ⟨0, Int.ofNat (extSize e)⟩ :: rest
   | [] => []
 
 def headSize (x : Arr) : Nat := match x.ext with | e :: _ => extSize e | [] => 0
+
+/-- `assign(first, last)` assigns in place iff the count and the inner extensions agree (array.hpp:1421-1423) -/
+def rangeInPlace (x y : Arr) : Bool :=
+  headSize y == headSize x && (headSize x == 0 || extsEq y.ext.tail x.ext.tail)
 
 /-- length of the innermost rows of the iterator-pair constructor (0 = one flat copy, D = 1) -/
 def rangeRowLen (x : Arr) : Nat :=
@@ -456,7 +462,7 @@ def Op.run (c : Cfg) (op : Op) : M Unit := do
     | none => ub
     | some y => do
       readCells c y.base y.n
-      ctorWith c i a (rangeExts y) true (rangeRowLen y)
+      ctorWith c i a (rangeExts c y) true (rangeRowLen y)
   | .ctorMove i j =>                                          -- array.hpp:1276, 242-245
     match getArr s j with
     | none => ub
@@ -542,6 +548,24 @@ def Op.run (c : Cfg) (op : Op) : M Unit := do
     match getArr s i with
     | none => ub
     | some x => if nElems es = x.n then setSlot i (some { x with ext := reported es }) else ub
+  | .assignFill i es =>                                       -- array.hpp:1405-1415
+    match getArr s i with
+    | none => ub
+    | some x =>
+      if extsEq x.ext es then assignAll c x.base (List.range x.n)     -- `adl_fill_n(base_, num_elements(), elem)`
+      else do
+        let x1 ← clearArr c i x
+        let n := nElems es
+        if c.fx7 then do
+          let p ← allocate x1.alloc n
+          tryCatch (constructAll c p n) (do deallocate c x1.alloc p n; rethrow)
+          setSlot i (some { x1 with base := p, ext := reported es, n := n })
+        else do
+          let x2 : Arr := { x1 with ext := reported es, n := n }
+          setSlot i (some x2)
+          let p ← allocate x2.alloc n
+          setSlot i (some { x2 with base := p })
+          constructAll c p n
   | .assignView i j sl lvalue =>                              -- lvalue view: array.hpp:1335-1343; rvalue view: array.hpp:1361-1379
     match getArr s i, getArr s j with
     | some x, some y =>
@@ -560,12 +584,12 @@ def Op.run (c : Cfg) (op : Op) : M Unit := do
   | .assignRange i j =>                                       -- array.hpp:1412-1422
     match getArr s i, getArr s j with
     | some x, some y =>
-      if headSize y = headSize x then do
+      if rangeInPlace x y then do
         readCells c y.base y.n
         assignAll c x.base (List.range x.n)
       else do
         readCells c y.base y.n
-        assignFromTemp c i x (rangeExts y) (rangeRowLen y)
+        assignFromTemp c i x (rangeExts c y) (rangeRowLen y)
     | _, _ => ub
   | .viewAssign i j =>                                        -- array_ref.hpp subarray::operator=
     match getArr s i, getArr s j with
@@ -621,8 +645,8 @@ def Op.applicable (c : Cfg) (s : St) : Op → Bool
   | .ctorDefault i _ | .ctorExt i _ _ | .ctorFill i _ _ => !alive s i
   | .ctorCopy i j | .ctorCopyA i j _ | .ctorMove i j | .ctorMoveA i j _ => !alive s i && alive s j
   | .ctorView i j _ sl => !alive s i && (match getArr s j with | some y => sliceOk y sl | none => false)
-  | .ctorRange i j _ => !alive s i && (match getArr s j with | some y => decide (1 ≤ headSize y) | none => false)
-  | .dtor i | .clear i | .reextent i _ | .reextentFill i _ | .reextentRv i _ => alive s i
+  | .ctorRange i j _ => !alive s i && alive s j
+  | .dtor i | .clear i | .reextent i _ | .reextentFill i _ | .reextentRv i _ | .assignFill i _ => alive s i
   | .reshape i es => match getArr s i with | some x => nElems es == x.n | none => false
   | .assignCopy i j | .assignMove i j => alive s i && alive s j
   | .swap i j =>   -- swapping unequal non-propagating allocators is undefined (as for standard containers): excluded
@@ -630,10 +654,7 @@ def Op.applicable (c : Cfg) (s : St) : Op → Bool
     | some x, some y => c.pocs || c.eqv x.alloc y.alloc
     | _, _ => false
   | .assignView i j sl _ => i != j && alive s i && (match getArr s j with | some y => sliceOk y sl | none => false)
-  | .assignRange i j =>
-    i != j && (match getArr s i, getArr s j with
-      | some x, some y => decide (1 ≤ headSize y) && !(headSize y == headSize x && !extsEq y.ext x.ext)
-      | _, _ => false)
+  | .assignRange i j => i != j && alive s i && alive s j
   | .viewAssign i j =>
     i != j && (match getArr s i, getArr s j with | some x, some y => extsEq x.ext y.ext | _, _ => false)
   | .saMove _ _ => true
